@@ -525,6 +525,38 @@ func ServiceCases() []*Case {
 			Request: []*Field{fld("thing", T(TString)), fld("thingId", T(TString)), fld("partName", T(TString)), fld("partNameLong", T(TString)), fld("part", T(TInt32))}, HasResponse: true}}})
 		out = append(out, &Case{ID: "service:prefix-named-properties:" + verb, Family: "services", Coord: "services|prefix-named-properties", P: &Program{Files: []*File{f}}})
 	}
+	// top-level declarations named like the messages a method or a topic generates into its sub-package
+	for _, shape := range []string{"object-one-file", "object-three-files", "enum-response", "topic-message"} {
+		a := file("t/v1", "a")
+		files := []*File{a}
+		svc := &Service{Name: "Thing", BasePath: "/t/v1", Methods: []*Method{{Name: "Ping", Verb: "POST", Path: "/ping", Request: []*Field{fld("v", T(TString))}, HasResponse: true, Response: []*Field{fld("w", T(TString))}}}}
+		switch shape {
+		case "object-one-file":
+			req := obj("PingRequest", fld("x", T(TString)))
+			a.Add(req)
+			a.Add(svc)
+			a.Add(obj("User", fld("r", RefTo(req, ""))))
+		case "object-three-files":
+			req := obj("PingRequest", fld("x", T(TString)))
+			a.Add(req)
+			b := file("t/v1", "b")
+			b.Add(svc)
+			c := file("t/v1", "c")
+			c.Add(obj("User", fld("r", RefTo(req, "")), fld("rs", ArrayOf(RefTo(req, "")))))
+			files = append(files, b, c)
+		case "enum-response":
+			e := enumD("PingResponse", "ONE", "TWO")
+			a.Add(e)
+			a.Add(obj("User", fld("e", RefTo(e, ""))))
+			a.Add(svc)
+		case "topic-message":
+			m := obj("PostMessage", fld("x", T(TString)))
+			a.Add(m)
+			a.Add(obj("User", fld("m", RefTo(m, ""))))
+			a.Add(&Topic{Name: "Note", Kind: "publish", Messages: []*TopicMsg{{Name: "Post", Fields: []*Field{fld("y", T(TString))}}}})
+		}
+		out = append(out, &Case{ID: "service:named-like-generated-message:" + shape, Family: "services", Coord: "services|named-like-generated-message", P: &Program{Files: files}})
+	}
 	// requests made of path parameters only, and empty requests, for every verb
 	for _, verb := range []string{"GET", "POST", "PUT", "DELETE", "PATCH"} {
 		for _, shape := range []string{"only-path-params", "no-fields"} {
